@@ -47,6 +47,25 @@ def gen_directive(r):
             extra -= 1
         out.append(" ".join(words))
         return out
+    sep = r.pick([" ", " ", "  ", "\t"])
+    if r.chance(18):
+        # the next preprocessing token glued to the directive name, trailing C comments, bare forms
+        glued = {
+            "if": [("if!defined(FOO)", "#if !defined(FOO)"), ("if(X > 1)", "#if (X > 1)"), ("if-1", "#if -1")],
+            "elif": [("elif(X)", "#elif (X)"), ("elif!Y", "#elif !Y")],
+            "else": [("else/* c */", "#else/* c */"), ("else // c", "#else // c")],
+            "endif": [("endif//x", "#endif//x"), ("endif /* X */", "#endif /* X */")],
+            "include": [('include"f.h"', '#include "f.h"'), ("include<f.h>", '#include "f.h"')],
+            "error": [('error"msg"', '#error "msg"'), ("error", "#error")],
+            "warning": [('warning"w"', '#warning "w"'), ("warning", "#warning")],
+            "define": [("define X(a,b)a+b", "#define X(a,b) a+b"), ("define\tX\t1", "#define X 1"), ("define X (a)", "#define X (a)")],
+            "marker": [('12 "f" 1 3 4', '# 12 "f" 1 3 4')],
+        }.get(k)
+        if glued:
+            txt, expect = r.pick(glued)
+            if k == "marker":
+                return k, ["# " + txt], expect
+            return k, [pre + "#" + mid + txt], expect
     if k == "if":
         a, b = r.pick([("defined(X) &&", " Y > 1"), ("X ==", " 2"), ("!defined(FOO)", " || BAR")])
         body = a + b
@@ -54,10 +73,10 @@ def gen_directive(r):
         return k, lines, "#if " + body
     if k in ("ifdef", "ifndef", "undef"):
         m = r.pick(["FOO", "X", "_BAR1"])
-        return k, [pre + "#" + mid + k + r.pick([" ", "  "]) + m], "#%s %s" % (k, m)
+        return k, [pre + "#" + mid + k + sep + m], "#%s %s" % (k, m)
     if k == "elif":
         c = r.pick(["Z", "defined(W)", "A > B"])
-        return k, [pre + "#" + mid + "elif " + c], "#elif " + c
+        return k, [pre + "#" + mid + "elif" + sep + c], "#elif " + c
     if k in ("else", "endif"):
         return k, [pre + "#" + mid + k], "#" + k
     if k == "include":
